@@ -6,7 +6,9 @@ Open Scope list_scope.
 Open Scope Z_scope.
 
 Inductive bop :=
-| BValidate (a c : Z) | BGet (a c : Z) | BSet (a : Z) (vs : list Z) | BReset | BIter.
+| BValidate (a c : Z) | BGet (a c : Z) | BSet (a : Z) (vs : list Z) | BReset | BIter
+| BSetScalar (a v : Z)               (* setValues(a, v) with a non-list v: coerced to [v] *)
+| BSetDict (kvs : list (Z * Z)).     (* sparse block only: setValues(_, {k: v, …}) *)
 
 Inductive bout :=
 | OB (b : bool) | OL (l : list Z) | OP (l : list (Z * Z)) | ONone | OExc (e : pyexn).
@@ -31,6 +33,12 @@ Definition step_block (b : block) (o : bop) : block * bout :=
   | BValidate a c => (b, OB (blk_validate C b a c))
   | BGet a c => (b, match blk_get C b a c with Ok l => OL l | Raise e => OExc e end)
   | BSet a vs => (blk_set C b a vs, ONone)
+  | BSetScalar a v => (blk_set C b a [v], ONone)
+  | BSetDict kvs =>
+      (match b with
+       | BSp s => BSp {| sp_vals := fold_left (fun d kv => d_set d (fst kv) (snd kv)) kvs (sp_vals s); sp_def := sp_def s |}
+       | BSeq _ => b            (* not generated for sequential blocks *)
+       end, ONone)
   | BReset => (blk_reset b, ONone)
   | BIter => (b, OP (blk_iter b))
   end.
@@ -80,6 +88,16 @@ Fixpoint prop_block (dflt : Z) (s : spec_state) (ops : list bop) (outs : list bo
           if spec_accepts s a (Z.of_nat (length vs))
           then bout_eqb out ONone && prop_block dflt (spec_set s a vs) ops' outs'
           else true      (* unconstrained: stop *)
+      | BSetScalar a v =>
+          if spec_accepts s a 1
+          then bout_eqb out ONone && prop_block dflt (spec_set s a [v]) ops' outs'
+          else true
+      | BSetDict kvs =>
+          (* the dictionary form writes the named cells; constrained when every key is populated *)
+          if forallb (fun kv => d_mem s (fst kv)) kvs
+          then bout_eqb out ONone &&
+               prop_block dflt (fold_left (fun d kv => d_set d (fst kv) (snd kv)) kvs s) ops' outs'
+          else true
       | BReset =>
           bout_eqb out ONone && prop_block dflt (map (fun kv => (fst kv, dflt)) s) ops' outs'
       | BIter =>
